@@ -1,5 +1,7 @@
 import IdenaModel.Proofs.ProtoWire
 import IdenaModel.Proofs.CodecTable
+import IdenaModel.Model.CodecObjects
+import IdenaModel.Proofs.RecordCodec
 /-!
 # C18 — wire and storage encodings round-trip; signatures bind every signed field
 
@@ -10,16 +12,20 @@ recovered signer or invalidates the signature; every field that influences behav
 What is proved here (all messages of all sizes and nesting depths, by induction; no enumeration):
 
 * `varint_roundtrip`, `varint_u64_size` — the base-128 varint codec.
-* `wire_roundtrip` — `decode (encode m) = some (normal form of m)` for every schema-conforming message.
+* `wire_roundtrip` — `decode (encode m) = some (normal form of m)` for every schema-conforming message;
+  `decoded_wf` — the result is again well-formed (field-number order, singular fields at most once).
 * `encode_canonical` — re-encoding what was decoded gives identical bytes (so hashes over encodings are stable).
 * `encode_injective` — equal bytes ⇒ equal normal forms (for one schema).
-* `sig_binds`, `sig_binds_fields` — equal signature hashes ⇒ equal signed messages ⇒ every signed proto field equal,
-  under the explicit hypothesis that the hash is injective (Keccak-256 idealised; listed in the trusted base).
+* `sig_binds`, `sig_binds_fields`, `norm_eq_fields` — equal signature hashes ⇒ equal signed messages ⇒ every signed
+  proto field equal, under the explicit hypothesis that the hash is injective (Keccak-256 idealised; trusted base).
 * `tx_sig_binds`, `vote_sig_binds` — the same at the level of the Go fields of `Transaction` / `Vote` (including the
-  big-integer, optional-address and fixed-array conversions); the Lean message builders `txDataMsg`, `voteDataMsg`
-  are compared against the real `ToSignatureBytes` on every run (driver ops `txsig`, `votesig`).
+  big-integer, optional-address and fixed-array conversions); `tx_hash_binds`, `proposed_hash_binds`,
+  `empty_hash_binds` — the object hashes (`types.go:823, :683, :701`) bind every field of the transaction / block
+  header.  The Lean message builders (`Model/CodecObjects.lean`) are compared byte for byte against the real
+  `ToSignatureBytes` / `ToProto`+`Marshal` on every run (driver ops `txsig`, `txfull`, `votesig`, `phdr`, `ehdr`), and
+  their schemas against the regenerated descriptors.
 * `conv_*` — the value conversions round-trip on their stated domains (`0 ≤ x` for big integers: the sign is not
-  representable, `big_negative_not_roundtrip`).
+  representable, `conv_big_sign_lost`, `tx_sig_negative_amount_collides`).
 * `codec_covers`, `sig_covers`, `uncovered_field_breaks` — the obligation on the field table regenerated from the
   current Go source: every struct field of every encodable type is mapped in both directions through a common
   proto field (and, for signed objects, into the signature message) or is on the committed allow-list.
@@ -49,6 +55,15 @@ theorem wire_roundtrip (s : Schema) (m : Msg) (d : Nat) (hc : confMsg s m = true
     decode d s (encode s m) = some (normMsg s m) := by
   unfold decode encode
   exact decMsg_encMsg_of_lt (confMsg_norm s m hc) (Nat.lt_of_le_of_lt (depthMsg_norm s m) hd)
+
+/-- what the decoder returns is again well-formed: conforming, in field-number order, singular fields at most once -/
+theorem decoded_wf (s : Schema) (m m' : Msg) (d : Nat) (hw : wfMsg s m = true) (hd : depthMsg m < d)
+    (h : decode d s (encode s m) = some m') : wfMsg s m' = true := by
+  have hw' := hw
+  simp only [wfMsg, Bool.and_eq_true] at hw'
+  rw [wire_roundtrip s m d hw'.1 hd] at h
+  rw [← Option.some.inj h]
+  exact wfMsg_norm s m hw
 
 /-- for messages already in normal form the round trip is the identity -/
 theorem wire_roundtrip_normal (s : Schema) (m : Msg) (d : Nat) (hc : confMsg s m = true) (hd : depthMsg m < d)
@@ -82,15 +97,13 @@ theorem sig_binds {H : Type} (hash : Bytes → H) (hinj : ∀ a b, hash a = hash
     (h : hash (encode s x) = hash (encode s y)) : normMsg s x = normMsg s y :=
   encode_injective s x y hx hy (hinj _ _ h)
 
-/-- … and therefore every singular field of the signed message reads the same through the proto3 getters -/
-theorem sig_binds_fields {H : Type} (hash : Bytes → H) (hinj : ∀ a b, hash a = hash b → a = b)
-    (s : Schema) (x y : Msg) (hx : wfMsg s x = true) (hy : wfMsg s y = true)
-    (h : hash (encode s x) = hash (encode s y)) :
+/-- equal normal forms ⇒ every singular field reads the same through the proto3 getters -/
+theorem norm_eq_fields (s : Schema) (x y : Msg) (hx : wfMsg s x = true) (hy : wfMsg s y = true)
+    (e : normMsg s x = normMsg s y) :
     ∀ f k, s.lookup f = some (false, k) →
       getInt x f = getInt y f ∧ getBytes x f = getBytes y f ∧
       (∀ s', k = .msg s' → (getMsg x f).map (normMsg s') = (getMsg y f).map (normMsg s')) := by
   simp only [wfMsg, Bool.and_eq_true] at hx hy
-  have e := sig_binds hash hinj s x y hx.1 hy.1 h
   intro f k hl
   refine ⟨?_, ?_, ?_⟩
   · rw [← getInt_normMsg hl hx.2, ← getInt_normMsg hl hy.2, e]
@@ -99,32 +112,19 @@ theorem sig_binds_fields {H : Type} (hash : Bytes → H) (hinj : ∀ a b, hash a
     subst hk
     rw [← getMsg_normMsg hl hx.2, ← getMsg_normMsg hl hy.2, e]
 
-/-! ### the transaction (`blockchain/types/types.go:852`, `transaction_signing.go:34`) -/
+/-- … so equal signature hashes force every signed proto field equal -/
+theorem sig_binds_fields {H : Type} (hash : Bytes → H) (hinj : ∀ a b, hash a = hash b → a = b)
+    (s : Schema) (x y : Msg) (hx : wfMsg s x = true) (hy : wfMsg s y = true)
+    (h : hash (encode s x) = hash (encode s y)) :
+    ∀ f k, s.lookup f = some (false, k) →
+      getInt x f = getInt y f ∧ getBytes x f = getBytes y f ∧
+      (∀ s', k = .msg s' → (getMsg x f).map (normMsg s') = (getMsg y f).map (normMsg s')) := by
+  have hx' := hx
+  have hy' := hy
+  simp only [wfMsg, Bool.and_eq_true] at hx' hy'
+  exact norm_eq_fields s x y hx hy (sig_binds hash hinj s x y hx'.1 hy'.1 h)
 
-/-- `ProtoTransaction.Data` (`protobuf/models.proto:7-16`); compared with the regenerated descriptor on every run -/
-def txDataSchema : Schema :=
-  [(1, false, .int), (2, false, .int), (3, false, .int), (4, false, .bytes), (5, false, .bytes),
-   (6, false, .bytes), (7, false, .bytes), (8, false, .bytes)]
-
-/-- the signed fields of a `types.Transaction` as Go values (`*big.Int` = `Option Int`, `*Address` = `Option Bytes`) -/
-structure TxSigned where
-  nonce : Nat
-  epoch : Nat
-  type : Nat
-  to : Option Bytes
-  amount : Option Int
-  maxFee : Option Int
-  tips : Option Int
-  payload : Bytes
-
-/-- `(*Transaction).ToSignatureBytes` before `proto.Marshal` (types.go:852-866) -/
-def txDataMsg (t : TxSigned) : Msg :=
-  [(1, .int t.nonce), (2, .int t.epoch), (3, .int t.type), (4, .bytes (optEnc t.to)),
-   (5, .bytes (bigEnc t.amount)), (6, .bytes (bigEnc t.maxFee)), (7, .bytes (bigEnc t.tips)),
-   (8, .bytes t.payload)]
-
-def TxSigned.WF (t : TxSigned) : Prop :=
-  (∀ a, t.to = some a → a.length = 20) ∧ 0 ≤ bigVal t.amount ∧ 0 ≤ bigVal t.maxFee ∧ 0 ≤ bigVal t.tips
+/-! ### the transaction: signature (`types.go:852`, `transaction_signing.go:34`) and hash (`types.go:823`) -/
 
 theorem txDataMsg_wf (t : TxSigned) : wfMsg txDataSchema (txDataMsg t) = true := by
   simp [wfMsg, confMsg, sortedMsg, txDataMsg, txDataSchema, Val.conf, Val.sorted, List.lookup]
@@ -133,16 +133,9 @@ theorem optEnc_injective {n : Nat} (hn : 0 < n) {x y : Option Bytes} (hx : ∀ a
     (hy : ∀ a, y = some a → a.length = n) (h : optEnc x = optEnc y) : x = y := by
   rw [← optDec_optEnc hn x hx, ← optDec_optEnc hn y hy, h]
 
-/-- **tx_sig_binds** — two transactions with the same signature hash agree on nonce, epoch, type, recipient,
-amount, max fee, tips (as values, `nil ≃ 0`) and payload.  With `recover sig h` a function of `(sig, h)` this is
-"changing a signed field changes the recovered signer or invalidates the signature", up to hash collisions. -/
-theorem tx_sig_binds {H : Type} (hash : Bytes → H) (hinj : ∀ a b, hash a = hash b → a = b)
-    (t u : TxSigned) (ht : t.WF) (hu : u.WF)
-    (h : hash (encode txDataSchema (txDataMsg t)) = hash (encode txDataSchema (txDataMsg u))) :
-    t.nonce = u.nonce ∧ t.epoch = u.epoch ∧ t.type = u.type ∧ t.to = u.to ∧
-    bigVal t.amount = bigVal u.amount ∧ bigVal t.maxFee = bigVal u.maxFee ∧ bigVal t.tips = bigVal u.tips ∧
-    t.payload = u.payload := by
-  have key := sig_binds_fields hash hinj txDataSchema _ _ (txDataMsg_wf t) (txDataMsg_wf u) h
+theorem txData_norm_binds (t u : TxSigned) (ht : t.WF) (hu : u.WF)
+    (e : normMsg txDataSchema (txDataMsg t) = normMsg txDataSchema (txDataMsg u)) : t.Same u := by
+  have key := norm_eq_fields txDataSchema _ _ (txDataMsg_wf t) (txDataMsg_wf u) e
   have f1 := (key 1 .int rfl).1
   have f2 := (key 2 .int rfl).1
   have f3 := (key 3 .int rfl).1
@@ -158,29 +151,46 @@ theorem tx_sig_binds {H : Type} (hash : Bytes → H) (hinj : ∀ a b, hash a = h
   exact ⟨f1, f2, f3, optEnc_injective (by decide) hto hto' f4, bigEnc_injective ha ha' f5,
     bigEnc_injective hm hm' f6, bigEnc_injective htp htp' f7, f8⟩
 
+/-- **tx_sig_binds** — two transactions with the same signature hash agree on nonce, epoch, type, recipient,
+amount, max fee, tips (as values, `nil ≃ 0`) and payload.  With `recover sig h` a function of `(sig, h)` this is
+"changing a signed field changes the recovered signer or invalidates the signature", up to hash collisions. -/
+theorem tx_sig_binds {H : Type} (hash : Bytes → H) (hinj : ∀ a b, hash a = hash b → a = b)
+    (t u : TxSigned) (ht : t.WF) (hu : u.WF)
+    (h : hash (encode txDataSchema (txDataMsg t)) = hash (encode txDataSchema (txDataMsg u))) : t.Same u := by
+  have hx := txDataMsg_wf t
+  have hy := txDataMsg_wf u
+  simp only [wfMsg, Bool.and_eq_true] at hx hy
+  exact txData_norm_binds t u ht hu (sig_binds hash hinj _ _ _ hx.1 hy.1 h)
+
 /-- the WF condition is necessary: amounts `5` and `-5` are different objects with the same signature hash
 (the sign is dropped by `BigIntBytesOrNil`); such an object cannot come out of `FromBytes`. -/
 theorem tx_sig_negative_amount_collides :
     encode txDataSchema (txDataMsg ⟨1, 2, 0, none, some 5, none, none, []⟩) =
     encode txDataSchema (txDataMsg ⟨1, 2, 0, none, some (-5), none, none, []⟩) := rfl
 
+theorem txMsg_wf (t : TxFull) : wfMsg txSchema (txMsg t) = true := by
+  have h := txDataMsg_wf t.data
+  simp only [wfMsg, Bool.and_eq_true] at h
+  simp [wfMsg, confMsg, sortedMsg, txMsg, txSchema, Val.conf, Val.sorted, List.lookup, h.1, h.2]
+
+theorem b2n_injective {a b : Bool} (h : b2n a = b2n b) : a = b := by
+  cases a <;> cases b <;> simp_all [b2n]
+
+/-- **tx_hash_binds** — `Transaction.Hash()` (Keccak of the full encoding, types.go:823) binds the signed part,
+the signature bytes and the `UseRlp` flag: transactions with equal hashes are equal objects. -/
+theorem tx_hash_binds {H : Type} (hash : Bytes → H) (hinj : ∀ a b, hash a = hash b → a = b)
+    (t u : TxFull) (ht : t.data.WF) (hu : u.data.WF)
+    (h : hash (encode txSchema (txMsg t)) = hash (encode txSchema (txMsg u))) :
+    t.data.Same u.data ∧ t.signature = u.signature ∧ t.useRlp = u.useRlp := by
+  have key := sig_binds_fields hash hinj txSchema _ _ (txMsg_wf t) (txMsg_wf u) h
+  have f1 := (key 1 (.msg txDataSchema) rfl).2.2 txDataSchema rfl
+  have f2 := (key 2 .bytes rfl).2.1
+  have f3 := (key 3 .int rfl).1
+  simp only [getInt, getBytes, getMsg, txMsg, List.lookup] at f1 f2 f3
+  simp at f1 f2 f3
+  exact ⟨txData_norm_binds _ _ ht hu f1, f2, b2n_injective f3⟩
+
 /-! ### the vote (`types.go:706`) -/
-
-/-- `ProtoVote.Data` (`models.proto`): round, step, parentHash, votedHash, turnOffline, upgrade -/
-def voteDataSchema : Schema :=
-  [(1, false, .int), (2, false, .int), (3, false, .bytes), (4, false, .bytes), (5, false, .int), (6, false, .int)]
-
-structure VoteSigned where
-  round : Nat
-  step : Nat
-  parentHash : Bytes
-  votedHash : Bytes
-  turnOffline : Bool
-  upgrade : Nat
-
-def voteDataMsg (v : VoteSigned) : Msg :=
-  [(1, .int v.round), (2, .int v.step), (3, .bytes v.parentHash), (4, .bytes v.votedHash),
-   (5, .int (if v.turnOffline then 1 else 0)), (6, .int v.upgrade)]
 
 theorem voteDataMsg_wf (v : VoteSigned) : wfMsg voteDataSchema (voteDataMsg v) = true := by
   simp [wfMsg, confMsg, sortedMsg, voteDataMsg, voteDataSchema, Val.conf, Val.sorted, List.lookup]
@@ -199,9 +209,106 @@ theorem vote_sig_binds {H : Type} (hash : Bytes → H) (hinj : ∀ a b, hash a =
   have f6 := (key 6 .int rfl).1
   simp only [getInt, getBytes, voteDataMsg, List.lookup] at f1 f2 f3 f4 f5 f6
   simp at f1 f2 f3 f4 f5 f6
+  have f5' := b2n_injective f5
   cases v; cases w
   simp_all
-  cases ‹Bool› <;> cases ‹Bool› <;> simp_all
+
+/-! ### block hashes (`types.go:683`, `:701`): the hash binds every header field -/
+
+theorem i64Enc_injective {a b : Int} (ha : inI64 a) (hb : inI64 b) (h : i64Enc a = i64Enc b) : a = b := by
+  rw [← i64Dec_i64Enc a ha.1 ha.2, ← i64Dec_i64Enc b hb.1 hb.2, h]
+
+theorem proposedMsg_wf (h : ProposedHdr) : wfMsg proposedSchema (proposedMsg h) = true := by
+  simp [wfMsg, confMsg, sortedMsg, proposedMsg, proposedSchema, Val.conf, Val.sorted, List.lookup]
+
+/-- **proposed_hash_binds** — two proposed headers with the same `Hash()` agree on all 16 fields
+(fee per gas as a value, `nil ≃ 0`). -/
+theorem proposed_hash_binds {H : Type} (hash : Bytes → H) (hinj : ∀ a b, hash a = hash b → a = b)
+    (g h : ProposedHdr) (hg : g.WF) (hh : h.WF)
+    (e : hash (encode proposedSchema (proposedMsg g)) = hash (encode proposedSchema (proposedMsg h))) :
+    g.parentHash = h.parentHash ∧ g.height = h.height ∧ g.time = h.time ∧ g.txHash = h.txHash ∧
+    g.proposerPubKey = h.proposerPubKey ∧ g.root = h.root ∧ g.identityRoot = h.identityRoot ∧ g.flags = h.flags ∧
+    g.ipfsHash = h.ipfsHash ∧ g.offlineAddr = h.offlineAddr ∧ g.txBloom = h.txBloom ∧ g.blockSeed = h.blockSeed ∧
+    bigVal g.feePerGas = bigVal h.feePerGas ∧ g.upgrade = h.upgrade ∧ g.seedProof = h.seedProof ∧
+    g.receiptsCid = h.receiptsCid := by
+  have key := sig_binds_fields hash hinj proposedSchema _ _ (proposedMsg_wf g) (proposedMsg_wf h) e
+  have f1 := (key 1 .bytes rfl).2.1
+  have f2 := (key 2 .int rfl).1
+  have f3 := (key 3 .int rfl).1
+  have f4 := (key 4 .bytes rfl).2.1
+  have f5 := (key 5 .bytes rfl).2.1
+  have f6 := (key 6 .bytes rfl).2.1
+  have f7 := (key 7 .bytes rfl).2.1
+  have f8 := (key 8 .int rfl).1
+  have f9 := (key 9 .bytes rfl).2.1
+  have f10 := (key 10 .bytes rfl).2.1
+  have f11 := (key 11 .bytes rfl).2.1
+  have f12 := (key 12 .bytes rfl).2.1
+  have f13 := (key 13 .bytes rfl).2.1
+  have f14 := (key 14 .int rfl).1
+  have f15 := (key 15 .bytes rfl).2.1
+  have f16 := (key 16 .bytes rfl).2.1
+  simp only [getInt, getBytes, proposedMsg, List.lookup] at f1 f2 f3 f4 f5 f6 f7 f8 f9 f10 f11 f12 f13 f14 f15 f16
+  simp at f1 f2 f3 f4 f5 f6 f7 f8 f9 f10 f11 f12 f13 f14 f15 f16
+  obtain ⟨gt, ga, gf⟩ := hg
+  obtain ⟨ht, ha, hf⟩ := hh
+  exact ⟨f1, f2, i64Enc_injective gt ht f3, f4, f5, f6, f7, f8, f9, optEnc_injective (by decide) ga ha f10, f11, f12,
+    bigEnc_injective gf hf f13, f14, f15, f16⟩
+
+theorem emptyMsg_wf (h : EmptyHdr) : wfMsg emptySchema (emptyMsg h) = true := by
+  simp [wfMsg, confMsg, sortedMsg, emptyMsg, emptySchema, Val.conf, Val.sorted, List.lookup]
+
+/-- **empty_hash_binds** — the hash of an empty block's header binds all 7 fields -/
+theorem empty_hash_binds {H : Type} (hash : Bytes → H) (hinj : ∀ a b, hash a = hash b → a = b)
+    (g h : EmptyHdr) (hg : inI64 g.time) (hh : inI64 h.time)
+    (e : hash (encode emptySchema (emptyMsg g)) = hash (encode emptySchema (emptyMsg h))) : g = h := by
+  have key := sig_binds_fields hash hinj emptySchema _ _ (emptyMsg_wf g) (emptyMsg_wf h) e
+  have f1 := (key 1 .bytes rfl).2.1
+  have f2 := (key 2 .int rfl).1
+  have f3 := (key 3 .bytes rfl).2.1
+  have f4 := (key 4 .bytes rfl).2.1
+  have f5 := (key 5 .int rfl).1
+  have f6 := (key 6 .bytes rfl).2.1
+  have f7 := (key 7 .int rfl).1
+  simp only [getInt, getBytes, emptyMsg, List.lookup] at f1 f2 f3 f4 f5 f6 f7
+  simp at f1 f2 f3 f4 f5 f6 f7
+  have f5' := i64Enc_injective hg hh f5
+  cases g; cases h
+  simp_all
+
+/-! ## generic flat records (`codec_roundtrip` of DESIGN 5/C18 for the flat codecs) -/
+
+/-- **record_roundtrip** — for every flat codec described by a spec in field-number order, every record whose values
+are in the domain of their conversions: decoding the encoding and converting back yields a semantically equal record
+(`nil ≃ 0` for big integers), and re-encoding the decoded message gives the identical bytes.  The spec of every flat
+idena-go type is derived at run time and `encode (recToMsg spec x)` is compared with the real `ToBytes` (`rec` op). -/
+theorem record_roundtrip (spec : Spec) (gs : List GoVal) (m : Msg) (hok : specOK spec = true)
+    (hm : recToMsg spec gs = some m) (hw : recWF spec gs) :
+    ∃ m', decode 1 (recSchema spec) (encode (recSchema spec) m) = some m' ∧
+      (recFromMsg spec m').map GoVal.sem = gs.map GoVal.sem ∧
+      encode (recSchema spec) m' = encode (recSchema spec) m := by
+  have hwf := recToMsg_wf hok hm
+  have hwf' := hwf
+  simp only [wfMsg, Bool.and_eq_true] at hwf'
+  obtain ⟨hs, _⟩ := (specOK_iff spec).mp hok
+  refine ⟨normMsg (recSchema spec) m, ?_, ?_, encode_norm _ _⟩
+  · exact wire_roundtrip _ m 1 hwf'.1 (by rw [recToMsg_depth spec gs m hm]; decide)
+  · rw [recFromMsg_normMsg hs hwf'.2]
+    have hk := recToMsg_keys spec gs m hm
+    have hlk : ∀ p ∈ m, m.lookup p.1 = some p.2 := lookup_of_mem_sorted m (by rw [hk]; exact hs)
+    have := recFrom_sem m spec gs m hm hlk hw
+    simpa [recFromMsg, List.map_map, Function.comp_def] using this
+
+/-- a record codec is injective up to the semantic normal form: equal bytes ⇒ equal records -/
+theorem record_injective (spec : Spec) (gs hs : List GoVal) (m n : Msg) (hok : specOK spec = true)
+    (hm : recToMsg spec gs = some m) (hn : recToMsg spec hs = some n) (hwg : recWF spec gs) (hwh : recWF spec hs)
+    (e : encode (recSchema spec) m = encode (recSchema spec) n) : gs.map GoVal.sem = hs.map GoVal.sem := by
+  obtain ⟨m', d1, r1, _⟩ := record_roundtrip spec gs m hok hm hwg
+  obtain ⟨n', d2, r2, _⟩ := record_roundtrip spec hs n hok hn hwh
+  rw [e, d2] at d1
+  have : n' = m' := Option.some.inj d1
+  subst this
+  rw [← r1, r2]
 
 /-! ## conversions (`conv_roundtrip`) -/
 
@@ -242,7 +349,7 @@ example : normMsg exSchema exMsg =
      (2, .bytes [1, 2, 3]), (13, .packed [1, 128, 16384]), (15, .bytes []), (15, .bytes [7])] := by rfl
 example : decode 3 exSchema (encode exSchema exMsg) = some (normMsg exSchema exMsg) :=
   wire_roundtrip exSchema exMsg 3 (by decide) (by decide)
-/-- concrete bytes (hand-checked against protoc): field 1 = nested message of 8 bytes, … -/
+/-- concrete bytes: field 1 = nested message of 7 bytes (`08 ac 02` = field 1 varint 300, two empty elements of field 9), … -/
 example : encode exSchema exMsg =
     [10, 7, 8, 172, 2, 74, 0, 74, 0, 18, 3, 1, 2, 3, 106, 6, 1, 128, 1, 128, 128, 1, 122, 0, 122, 1, 7] := by
   simp [encode, normMsg, exSchema, exMsg, omitted, Val.isDefault, Val.isPacked, Val.norm, encMsg, Val.toRaw,
@@ -251,6 +358,10 @@ example : encode exSchema exMsg =
 example : (⟨1, 2, 0, some (List.replicate 20 7), some 5, none, some 0, [1]⟩ : TxSigned).WF := by
   refine ⟨?_, by decide, by decide, by decide⟩
   intro a h; cases h; rfl
+example : (⟨List.replicate 32 1, 7, -1, [], [4], [], [], 3, [], some (List.replicate 20 9), [], [], some 10, 0, [], []⟩ : ProposedHdr).WF := by
+  refine ⟨⟨by decide, by decide⟩, ?_, by decide⟩
+  intro a h; cases h; rfl
+example : inI64 (-5) := ⟨by decide, by decide⟩
 example : ∃ t u : TxSigned, t.WF ∧ u.WF ∧ t ≠ u := by
   refine ⟨⟨1, 2, 0, none, none, none, none, []⟩, ⟨2, 2, 0, none, none, none, none, []⟩, ?_, ?_, ?_⟩
   · exact ⟨(by intro a h; cases h), by decide, by decide, by decide⟩
